@@ -13,7 +13,7 @@ import (
 func init() {
 	// diagnostic: repeats one gRPC tcp-cut plan and prints what the client saw and what the server stored
 	Extra["c10probe"] = func(args []string) int {
-		dir := filepath.Join(os.TempDir(), "..", "var", "tmp", "c10probe")
+		dir := filepath.Join(os.TempDir(), "..", "var", "tmp", fmt.Sprintf("c10probe-%d", os.Getpid()))
 		os.RemoveAll(dir)
 		env, err := dbx.Open(dbx.Options{Mode: dbx.Grpc, Dir: dir, Proxy: true})
 		if err != nil {
